@@ -1,4 +1,4 @@
-import RedisGoModel.Props.C08ReadySave
+import RedisGoModel.Props.C08ReadyRun
 import RedisGoModel.Generated.ReadyArm
 /-! # C08 — persist before externalise, on the loop model `Cluster/ReadyLoop.lean` (used by C07 / C15)
 
@@ -263,6 +263,25 @@ theorem externalise_safe (c : Cfg) (s : State) (st : Stmt) (hst : st = .send ∨
     contract (any Readys that are `ReadyOk`, statements, crashes keeping any prefix of the unsynced tail), a crash now, whatever survives
     of the tail, is followed by a successful restart that keeps every promise made and not taken back by raft -/
 def PersistBeforeExternalise (c : Cfg) : Prop := ∀ evs, Conforms c {} evs → Safe (run c {} evs)
+
+/-- **persist_before_externalise** — the arm of `serveChannels` as it is (fact F4, `arm_is_source_arm`): in EVERY state reachable from the
+    empty node by events that respect etcd's contract — any sequence of `ReadyOk` Readys, the statements of the arm one at a time, a
+    crash between any two of them that keeps any prefix of the unsynced WAL tail, followed by `replayWAL` — a crash now (again with any
+    prefix of the tail surviving) is followed by a successful restart, and what it reconstructs keeps every promise made to the outside and
+    not taken back by raft: the term of every message sent, every vote granted (and the node's own candidacy), every entry at or below an
+    acknowledged index, the acknowledged index itself, every acknowledged or applied snapshot, every entry handed to the commit channel.
+    Since `owed` only loses promises when raft hands out entries that overwrite them (`take`, `released`), this is "at the moment of
+    externalisation and at every later moment". -/
+theorem persist_before_externalise : PersistBeforeExternalise {} :=
+  fun evs hconf => (inv_run rfl evs {} (inv_init _) hconf).safe
+
+/-- the same for every configuration that runs the arm of the source (any snapshot thresholds, any node id) -/
+theorem persist_before_externalise_cfg (c : Cfg) (hc : c.arm = theArm) : PersistBeforeExternalise c :=
+  fun evs hconf => (inv_run hc evs {} (inv_init _) hconf).safe
+
+/-- the node never ends up unable to start -/
+theorem never_down (c : Cfg) (hc : c.arm = theArm) (evs : List Ev) (hconf : Conforms c {} evs) : (run c {} evs).down = false :=
+  (inv_run hc evs {} (inv_init _) hconf).down
 
 theorem persistBeforeExternalise_false_send_first : ¬ PersistBeforeExternalise { arm := sendFirstArm } := by
   intro h
